@@ -9,6 +9,7 @@ the continued fraction within its iteration cap are NOT theorems; they are exerc
 by the search layer (see notes/C12.md).
 -/
 import Proofs.Lemmas.C12Descr
+import Model.Stats.TTest
 
 namespace C12
 open Stats Stats.Descr
@@ -50,5 +51,159 @@ theorem variance_exact (xs : List ℚ) (h : 2 ≤ xs.length) :
   ring
 
 example : variance [(1 : ℚ), 2, 3, 4] = some (5 / 3) := by decide +kernel
+
+
+/-! ### t-tests -/
+section TTest
+open Stats.TTest
+
+theorem abs_rat (a : ℚ) : Arith.abs a = |a| := by
+  show ratAbs a = |a|
+  unfold ratAbs
+  split
+  · rw [abs_of_neg ‹_›]
+  · rw [abs_of_nonneg (not_lt.mp ‹_›)]
+
+/-- **ttest_formulas (Welch)** — when no error is reported the statistic is
+(x̄₁−x̄₂)/√(s₁²/n₁+s₂²/n₂) and the degrees of freedom are Welch–Satterthwaite's
+(s₁²/n₁+s₂²/n₂)² / (s₁⁴/(n₁²(n₁−1)) + s₂⁴/(n₂²(n₂−1))), for every `sqrt`. -/
+theorem ttest_formulas_welch (sqrt : ℚ → ℚ) (n1 m1 v1 n2 m2 v2 : ℚ)
+    (hn : 1 < n1 ∧ 1 < n2) (hv : ¬ (v1 = 0 ∧ v2 = 0)) :
+    welch sqrt n1 m1 v1 n2 m2 v2 =
+      .ok ⟨(m1 - m2) / sqrt (v1 / n1 + v2 / n2),
+           (v1 / n1 + v2 / n2) ^ 2 /
+             (v1 ^ 2 / (n1 ^ 2 * (n1 - 1)) + v2 ^ 2 / (n2 ^ 2 * (n2 - 1)))⟩ := by
+  have h1 : ¬ (n1 ≤ 1) := not_le.mpr hn.1
+  have h2 : ¬ (n2 ≤ 1) := not_le.mpr hn.2
+  have hv' : ¬ (v1 = 0 ∧ v2 = 0) := hv
+  simp only [welch, TTest.sq, Bool.or_eq_true, le_rat, Bool.and_eq_true, eq_rat, ofNat_rat, Nat.cast_one,
+    Nat.cast_zero, h1, h2, or_self, if_false, hv', add_rat, div_rat, mul_rat, sub_rat]
+  congr 2
+  rw [← pow_two, ← pow_two, ← pow_two, div_pow, div_pow, div_div, div_div]
+
+/-- **ttest_formulas (pooled)** — t = (x̄₁−x̄₂)/√(s_p²(1/n₁+1/n₂)) with
+s_p² = ((n₁−1)s₁²+(n₂−1)s₂²)/(n₁+n₂−2) and ν = n₁+n₂−2. -/
+theorem ttest_formulas_pooled (sqrt : ℚ → ℚ) (n1 m1 v1 n2 m2 v2 : ℚ)
+    (hn : n1 ≠ 0 ∧ n2 ≠ 0) (hv : ¬ (v1 = 0 ∧ v2 = 0)) :
+    pooled sqrt n1 m1 v1 n2 m2 v2 =
+      .ok ⟨(m1 - m2) / sqrt (((n1 - 1) * v1 + (n2 - 1) * v2) / (n1 + n2 - 2) * (1 / n1 + 1 / n2)),
+           n1 + n2 - 2⟩ := by
+  simp only [pooled, Bool.or_eq_true, Bool.and_eq_true, eq_rat, ofNat_rat, Nat.cast_one,
+    Nat.cast_zero, Nat.cast_ofNat, hn.1, hn.2, or_self, if_false, hv, add_rat, div_rat, mul_rat,
+    sub_rat]
+
+/-- **ttest_formulas (one sample)** — t = (x̄−μ₀)/(s/√n) with s = √(s²), ν = n−1
+(for any `sqrt`). -/
+theorem ttest_formulas_one (sqrt : ℚ → ℚ) (n m v μ0 : ℚ) (hn : n ≠ 0) (hv : v ≠ 0) :
+    oneSample sqrt n m v μ0 = .ok ⟨(m - μ0) / (sqrt v / sqrt n), n - 1⟩ := by
+  simp only [oneSample, eq_rat, ofNat_rat, Nat.cast_zero, Nat.cast_one, hn, hv, if_false, div_rat,
+    mul_rat, sub_rat]
+  congr 2
+  rw [div_div_eq_mul_div]
+
+/-- **ttest_formulas (paired)** — with d = x₁ − x₂ (elementwise), d̄ = Σd/n and
+s_d = √(Σ(d−d̄)²/(n−1)): t = (d̄−μ₀)/(s_d/√n), ν = n−1. -/
+theorem ttest_formulas_paired (sqrt : ℚ → ℚ) (x1 x2 : List ℚ) (μ0 : ℚ)
+    (hl : x1.length = x2.length) (hn : 2 ≤ x1.length) :
+    let d := List.zipWith (· - ·) x1 x2
+    let n : ℚ := x1.length
+    let dbar := lsum d / n
+    let sd := sqrt (lsum (d.map fun x => (x - dbar) * (x - dbar)) / (n - 1))
+    sd ≠ 0 →
+    paired sqrt x1 x2 μ0 = .ok ⟨(dbar - μ0) / (sd / sqrt n), ((x1.length - 1 : ℕ) : ℚ)⟩ := by
+  intro d n dbar sd hsd
+  have hd : List.zipWith Arith.sub x1 x2 = d := rfl
+  have hdl : d.length = x1.length := by simp [d, hl]
+  have hne : d ≠ [] := by
+    intro h; rw [h] at hdl; simp at hdl; omega
+  have hm := mean_incremental_exact d hne
+  have hv := variance_exact d (by omega)
+  rw [hdl] at hm hv
+  have h1 : ¬ x1.length ≠ x2.length := by simp [hl]
+  have h2 : ¬ x1.length ≤ 1 := by omega
+  simp only [paired, h1, h2, if_false, hd, hm, hv]
+  have hsd' : ¬ sd = 0 := hsd
+  simp only [pairedCore, eq_rat, ofNat_rat, Nat.cast_zero, div_rat, mul_rat, sub_rat]
+  rw [if_neg hsd']
+  congr 2
+  rw [div_div_eq_mul_div]
+
+/-- **ttest_tails** — the two-sided p-value is twice the upper tail of |t|, and the two one-sided
+p-values add to 1, for ANY distribution function F. -/
+theorem ttest_tails (F : ℚ → ℚ) (t : ℚ) :
+    pvalue F t .differs = 2 * (1 - F |t|) ∧
+    pvalue F t .less + pvalue F t .greater = 1 ∧
+    pvalue F t .less = F t := by
+  refine ⟨?_, ?_, rfl⟩
+  · simp [pvalue, abs_rat]
+  · simp [pvalue]
+
+/-- **ttest_errors** — exactly the undersized and zero-variance inputs are reported as errors:
+Welch needs more than one value per sample, the pooled and one-sample tests a non-empty sample,
+the paired test equal lengths ≥ 2; a test whose variance(s) are all zero reports
+`ErrZeroVariance`; every other input yields a result. -/
+theorem ttest_errors (sqrt : ℚ → ℚ) (n1 m1 v1 n2 m2 v2 μ0 : ℚ) :
+    (welch sqrt n1 m1 v1 n2 m2 v2 = .error .sampleSize ↔ (n1 ≤ 1 ∨ n2 ≤ 1)) ∧
+    (welch sqrt n1 m1 v1 n2 m2 v2 = .error .zeroVariance ↔ (1 < n1 ∧ 1 < n2 ∧ v1 = 0 ∧ v2 = 0)) ∧
+    (pooled sqrt n1 m1 v1 n2 m2 v2 = .error .sampleSize ↔ (n1 = 0 ∨ n2 = 0)) ∧
+    (pooled sqrt n1 m1 v1 n2 m2 v2 = .error .zeroVariance ↔ (n1 ≠ 0 ∧ n2 ≠ 0 ∧ v1 = 0 ∧ v2 = 0)) ∧
+    (oneSample sqrt n1 m1 v1 μ0 = .error .sampleSize ↔ n1 = 0) ∧
+    (oneSample sqrt n1 m1 v1 μ0 = .error .zeroVariance ↔ (n1 ≠ 0 ∧ v1 = 0)) := by
+  refine ⟨?_, ?_, ?_, ?_, ?_, ?_⟩
+  · by_cases h : n1 ≤ 1 ∨ n2 ≤ 1
+    · simp [welch, h]
+    · by_cases hv : v1 = 0 ∧ v2 = 0 <;> simp [welch, h, hv]
+  · by_cases h : n1 ≤ 1 ∨ n2 ≤ 1
+    · have : ¬ (1 < n1 ∧ 1 < n2 ∧ v1 = 0 ∧ v2 = 0) := by
+        rintro ⟨a, b, -⟩; rcases h with h | h <;> linarith
+      simp [welch, h, this]
+    · have h' : 1 < n1 ∧ 1 < n2 := by
+        constructor <;> (by_contra hc; exact h (by first | exact Or.inl (not_lt.mp hc) | exact Or.inr (not_lt.mp hc)))
+      by_cases hv : v1 = 0 ∧ v2 = 0
+      · simp [welch, h, hv, h'.1, h'.2]
+      · have : ¬ (1 < n1 ∧ 1 < n2 ∧ v1 = 0 ∧ v2 = 0) := fun ⟨_, _, a, b⟩ => hv ⟨a, b⟩
+        simp [welch, h, hv, this]
+  · by_cases h : n1 = 0 ∨ n2 = 0
+    · simp [pooled, h]
+    · by_cases hv : v1 = 0 ∧ v2 = 0 <;> simp [pooled, h, hv]
+  · by_cases h : n1 = 0 ∨ n2 = 0
+    · have : ¬ (n1 ≠ 0 ∧ n2 ≠ 0 ∧ v1 = 0 ∧ v2 = 0) := by
+        rintro ⟨a, b, -⟩; rcases h with h | h <;> contradiction
+      simp [pooled, h, this]
+    · have h' : n1 ≠ 0 ∧ n2 ≠ 0 := ⟨fun a => h (Or.inl a), fun a => h (Or.inr a)⟩
+      by_cases hv : v1 = 0 ∧ v2 = 0
+      · simp [pooled, h, hv, h'.1, h'.2]
+      · have : ¬ (n1 ≠ 0 ∧ n2 ≠ 0 ∧ v1 = 0 ∧ v2 = 0) := fun ⟨_, _, a, b⟩ => hv ⟨a, b⟩
+        simp [pooled, h, hv, this]
+  · by_cases h : n1 = 0
+    · simp [oneSample, h]
+    · by_cases hv : v1 = 0 <;> simp [oneSample, h, hv]
+  · by_cases h : n1 = 0
+    · simp [oneSample, h]
+    · by_cases hv : v1 = 0 <;> simp [oneSample, h, hv]
+
+/-- **ttest_errors (paired)** -/
+theorem ttest_errors_paired (sqrt : ℚ → ℚ) (x1 x2 : List ℚ) (μ0 : ℚ) :
+    (paired sqrt x1 x2 μ0 = .error .mismatched ↔ x1.length ≠ x2.length) ∧
+    (x1.length = x2.length → x1.length ≤ 1 → paired sqrt x1 x2 μ0 = .error .sampleSize) := by
+  constructor
+  · by_cases h : x1.length ≠ x2.length
+    · simp [paired, h]
+    · have hne : paired sqrt x1 x2 μ0 ≠ .error .mismatched := by
+        unfold paired
+        rw [if_neg h]
+        split
+        · simp
+        · dsimp only
+          split
+          · unfold pairedCore; split <;> simp
+          · simp
+      simp only [hne, false_iff]
+      exact h
+  · intro hl h2
+    unfold paired
+    rw [if_neg (by simp [hl]), if_pos h2]
+
+end TTest
 
 end C12
